@@ -8,6 +8,7 @@ for P in "$@"; do
   EXC+=(":!coq/$P" ":!props/$P.json" ":!evidence/$P.json")
   H=$(python3 -c "import json;p=json.load(open('props/$P.json'));print('harness/'+p['harness']['package']+'/src/bin/'+p['harness']['bin']+'.rs')" 2>/dev/null)
   [ -n "$H" ] && EXC+=(":!$H")
+  case "$P" in C14|C15) EXC+=(":!harness/h_aggregator/src/drv.rs");; esac
 done
 git add -A . "${EXC[@]}"
 git commit -qm "$MSG" && git log --oneline | head -1
